@@ -39,8 +39,11 @@ def run_cases(chk, plan, label, crlf_ok=True):
         if ext in ("md", "markdown") and variant % 4 == 2:
             container = ("li", "bq")[(variant // 4) % 2]
             crlf = False
+        # attribute values holding comment-marker characters of every family must come back as written
+        extra = {1: " c='#1 //2 ## 3'"} if (variant % 5 == 0 and not bare and ext not in ("md", "markdown")) else None
         r = langs.render(case["items"], ext, variant, crlf=crlf, multibyte=mb, bare=bare,
-                         endsp=(variant // 3) if variant % 3 == 0 else None, container=container)
+                         endsp=(variant // 3) if variant % 3 == 0 else None, container=container, tag_attrs=extra)
+        r["extra"] = extra
         cid = "%s%d" % (label, i)
         batch.append({"id": cid, "files": {r["name"]: r["text"]}, "diff": None, "args": ["list"], "terminal": True})
         meta[cid] = (case, ext, variant, r, crlf, mb, bare)
@@ -73,13 +76,16 @@ def run_cases(chk, plan, label, crlf_ok=True):
             chk.violation("%s: blocks found %s, blocks written in comments %s" % (ext, sorted(got), sorted(want)),
                           dict(detail, expected=exp))
             continue
-        # source order (list sorts by line; blocks on one line may come in any order)
-        lines_ = [g[1] for g in got]
+        # source order: by line, and by column for blocks that start on one line (nested or sibling)
+        lines_ = [(g[1], g[2]) for g in got]
         if lines_ != sorted(lines_):
             chk.violation("%s: blocks not reported in source order: %s" % (ext, got), detail)
         # attributes as written
         for b in listed:
-            if b["attributes"] != ({} if bare else {"name": b["name"]}):
+            want_attrs = {} if bare else {"name": b["name"]}
+            if r.get("extra") and b["name"] == "n1":
+                want_attrs["c"] = "#1 //2 ## 3"
+            if b["attributes"] != want_attrs:
                 chk.violation("%s: attributes %s for block %s" % (ext, b["attributes"], b["name"]), detail)
         # content bytes from the block hook events (tag line -> content range)
         tb = {(e["tag"][0], e["tag"][1]): e for e in blocks_by_case.get(cid, [])}
